@@ -130,6 +130,11 @@ pub fn attack_programs() -> Vec<(&'static str, &'static str)> {
         ("use-shared-var-undefined", "a { b: $shared; }\n"),
         ("define-placeholder", "%shared-ph { x: y; }\na { b: c; }\n"),
         ("global-default-var", "$shared: 1 !default;\na { b: $shared; }\n"),
+        // collections with several entries: anything kept in a hash map / set would show its iteration order here
+        ("compound-units", "@use \"sass:math\";\n@use \"sass:meta\";\n$a: 1px * 1s * 1em;\n$b: 2s * 3em * 4px;\n$c: math.div(1px * 1s, 1em * 1deg);\na { u1: meta.inspect($a); u2: meta.inspect($c); cmp: math.compatible($a, $b); eq: $a * 24 == $b; lt: $a < $b; sum: meta.inspect($a + $b); mx: meta.inspect(math.max($a, $b)); mn: meta.inspect(math.min($b, $a)); cl: meta.inspect(math.clamp($a, $b, $b)); un: math.unit($a); d: meta.inspect(math.div($b, $a)); cmp2: math.compatible(1px * 1s, 1s * 1in); }\n"),
+        ("big-maps", "@use \"sass:map\";\n@use \"sass:meta\";\n$m: (z: 1, y: 2, x: 3, w: 4, v: 5, u: 6, t: 7, s: 8, a: 9, b: 10);\n$n: map.merge($m, (k: 11, c: 12));\na { k: meta.inspect(map.keys($n)); v: meta.inspect(map.values($n)); r: meta.inspect(map.remove($n, y, w)); i: meta.inspect($n); @each $k, $v in $n { p-#{$k}: $v; } }\n"),
+        ("many-selectors", "@use \"sass:selector\";\n.z, .y .x, .w > .v, .u ~ .t { &:hover, &.s { x: y; } }\na { s: selector.unify(\".a.b.c\", \".d.e.f\"); e: selector.extend(\".a .b, .c .d\", \".b, .d\", \".x, .y, .z\"); r: selector.replace(\".a.b.c\", \".b\", \".q, .r\"); }\n"),
+        ("keyword-args", "@use \"sass:meta\";\n@function f($args...) { @return meta.inspect(meta.keywords($args)); }\n@mixin m($z: 1, $y: 2, $x: 3, $w: 4) { o: $z $y $x $w; }\na { k: f($z: 1, $y: 2, $x: 3, $w: 4, $a: 5); @include m($w: 9, $x: 8, $y: 7, $z: 6); }\n"),
         ("random-unique", "@use \"sass:math\";\na { b: math.random(); c: math.random(10); d: unique-id(); }\n"),
         ("unique-many", "@for $i from 1 through 20 { x { y: unique-id(); } }\n"),
     ]
